@@ -192,6 +192,7 @@ def parsePayEnd (k : String) : Option PReply :=
   else if k = "failed" then some (.payFailed false)
   else if k = "failedwarn" then some (.payFailed true)
   else if k = "err" then some .rpcErr
+  else if k = "conn" then some .rpcErr      -- the connection could not be opened: same continuation
   else if k.startsWith "complete" then (k.drop 8).toString.toNat?.map .payComplete
   else none
 
